@@ -284,7 +284,30 @@ fn handle_candidates(
         candidates.keys().collect::<Vec<_>>()
     );
 
-    for (_table, pks) in candidates {
+    #[cfg(feature = "verif-hooks")]
+    for (table, pks) in candidates.iter() {
+        for (pk, cl) in pks.iter() {
+            let change_type = if cl % 2 == 0 {
+                ChangeType::Delete
+            } else {
+                ChangeType::Update
+            };
+            crate::verif::event("upd.notify", || {
+                format!(
+                    "{table} {cl} {change_type:?} {}",
+                    unpack_columns(pk)
+                        .ok()
+                        .and_then(|x| serde_json::to_string(
+                            &x.iter().map(|x| x.to_owned()).collect::<Vec<_>>()
+                        )
+                        .ok())
+                        .unwrap_or_default()
+                )
+            });
+        }
+    }
+
+    for (_, pks) in candidates {
         let pks = pks
             .iter()
             .map(|(pk, cl)| unpack_columns(pk).map(|x| (x, *cl)))
@@ -295,15 +318,6 @@ fn handle_candidates(
             if cl % 2 == 0 {
                 change_type = ChangeType::Delete
             }
-            #[cfg(feature = "verif-hooks")]
-            crate::verif::event("upd.notify", || {
-                format!(
-                    "{} {cl} {change_type:?} {}",
-                    _table,
-                    serde_json::to_string(&pk.iter().map(|x| x.to_owned()).collect::<Vec<_>>())
-                        .unwrap_or_default()
-                )
-            });
             if let Err(e) = evt_tx.blocking_send(NotifyEvent::Notify(
                 change_type,
                 pk.iter().map(|x| x.to_owned()).collect::<Vec<_>>(),
